@@ -20,6 +20,7 @@ var hostileSeeds = []string{
 	"a/b/c@v1", "a/b/c@1.0.0@2.0.0", "xn--/a/b/c", "\u30c6\u30e9.example.com/a/b/c", "exa mple.com/a/b/c", "a/b/c d", "-/-/-", "_/_/_", "A/B/C", "a.b/c/d/e", "127.0.0.1/a/b/c", "localhost/a/b/c", "example.com:443/a/b/c",
 	"https://example.com/x.tgz?checksum=md5:00", "https://example.com/x.tgz#frag", "git::ssh://git@example.com/x.git", "git::ssh://example.com/x.git", "git::https://example.com/%2e%2e/x.git",
 	"a/b/c@18446744073709551616.0.0", "a/b/c@1.99999999999999999999.0", "example.com/a/b/c@0.0.340282366920938463463374607431768211456", "a/b/c@1.0.0-99999999999999999999",
+	"\u2135a.com/ns/name/aws", "a\u2136.example.com/a/b/c@1.0.0", strings.Repeat("a", 1025) + "\u00e9.com/ns/name/aws", "xn--a-zhc.com/a/b/c",
 	"c:\\windows", ".\\a", "./a:b", "./a\\b", " ./a", "./a ", "\t", "\x00", "./\x00", "a/b/c\x00",
 }
 
@@ -33,7 +34,7 @@ func mutateString(r *simkit.RNG, s string) string {
 		}
 	case 1:
 		i := r.Intn(len(rs) + 1)
-		ins := []rune(simkit.Pick(r, []string{"/", "//", "..", ".", "?", "&", "=", "@", ":", "::", "%", "%2f", "%00", "#", " ", "\\", "\u00e9", "\U0001F600", "[", "]", "*", "+"}))
+		ins := []rune(simkit.Pick(r, []string{"/", "//", "..", ".", "?", "&", "=", "@", ":", "::", "%", "%2f", "%00", "#", " ", "\\", "\u00e9", "\U0001F600", "[", "]", "*", "+", "\u2135", "\u2138"}))
 		rs = append(rs[:i], append(ins, rs[i:]...)...)
 	case 2:
 		return s + s
